@@ -160,4 +160,343 @@ example : ∀ p ∈ xPreds, (0 : Rat) ≤ p.1 ∧ p.1 ≤ 1 := by decide +kernel
 example : momentPred (Moments.eventOf .dp) C06.xRows 1 Moments.defaultUtil (fun _ => 1/4) (fun _ => C06.xH) 0
     = some (1/4, 1/4, [-1/4, -1/4, 1/4]) := by decide +kernel
 
+/-! ## Work package L3: GridSearch END TO END — from the output of `Grid.select` / `Grid.fitLoop` to the named metric
+
+`fit_spec` (C09) describes `best_idx_`; C06X turns "gamma ≤ eps" into bounds on the user-facing metric.  The theorems
+below compose them into ONE statement about the value `fitLoop` returns, for any `constraint_weight ∈ (0, 1]`. -/
+
+/-- what `Grid.select` sees of one record with a non-empty gamma vector -/
+theorem tradeoff_cons (cw obj g : Rat) (gs : List Rat) :
+    tradeoff cw obj (g :: gs) = some ((1 - cw) * obj + cw * maxL g gs) := rfl
+
+/-- **`Grid.select`, any `constraint_weight ∈ (0,1]`, objectives in [0,1]**: if SOME record has all gamma entries
+    `≤ eps`, every gamma entry of the SELECTED record is `≤ eps + (1 − cw)/cw` (`= eps` for `cw = 1`) -/
+theorem select_gamma_le (cw : Rat) (hcw : 0 < cw) (hcw1 : cw ≤ 1) (recs : List (Rat × List Rat)) (i : Nat)
+    (h : select cw recs = some i) (hobj : ∀ r ∈ recs, 0 ≤ r.1 ∧ r.1 ≤ 1) (eps : Rat)
+    (hk : ∃ r ∈ recs, ∀ y ∈ r.2, y ≤ eps) :
+    ∃ hi : i < recs.length, ∀ y ∈ recs[i].2, y ≤ eps + (1 - cw) / cw := by
+  obtain ⟨losses, hmap, hi, hmin, _⟩ := select_spec cw recs i h
+  have hlen : recs.length = losses.length := by
+    have := congrArg List.length hmap; simpa using this
+  have hrec : ∀ k (hk1 : k < recs.length) (hk2 : k < losses.length),
+      ∃ g gs, recs[k].2 = g :: gs ∧ losses[k] = (1 - cw) * recs[k].1 + cw * maxL g gs := by
+    intro k hk1 hk2
+    have h1 : (recs.map (fun r => tradeoff cw r.1 r.2))[k]'(by simpa using hk1) = (losses.map some)[k]'(by simpa using hk2) := by
+      simp only [hmap]
+    simp only [List.getElem_map] at h1
+    cases hg : recs[k].2 with
+    | nil => rw [hg] at h1; simp [tradeoff] at h1
+    | cons g gs =>
+      rw [hg, tradeoff_cons] at h1
+      exact ⟨g, gs, rfl, (Option.some.inj h1).symm⟩
+  have hi' : i < recs.length := by omega
+  refine ⟨hi', ?_⟩
+  obtain ⟨r, hr, hre⟩ := hk
+  obtain ⟨k, hk1, hkr⟩ := List.getElem_of_mem hr
+  have hk2 : k < losses.length := by omega
+  obtain ⟨g, gs, hg, hl⟩ := hrec k hk1 hk2
+  obtain ⟨gi, gsi, hgi, hli⟩ := hrec i hi' hi
+  have hle := hmin _ (List.getElem_mem hk2)
+  rw [hl, hli] at hle
+  have hMk : maxL g gs ≤ eps := by
+    apply hre
+    rw [← hkr, hg]
+    exact (maxL_spec g gs).1
+  have ho1 := (hobj _ (List.getElem_mem hk1)).2
+  have ho2 := (hobj _ (List.getElem_mem hi')).1
+  have hMi : maxL gi gsi ≤ eps + (1 - cw) / cw := by
+    have e : eps + (1 - cw) / cw = (cw * eps + (1 - cw)) / cw := by field_simp
+    rw [e, le_div_iff₀ hcw]
+    have : cw * maxL g gs ≤ cw * eps := mul_le_mul_of_nonneg_left hMk (le_of_lt hcw)
+    nlinarith
+  intro y hy
+  rw [hgi] at hy
+  exact le_trans ((maxL_spec gi gsi).2 y hy) hMi
+
+open Moments Cross in
+theorem gammaLe_iff_mem (ev : Ev) (rows : List Row) (ratio : Rat) (ut : Util) (h : List Rat) (eps : Rat) :
+    GammaLe ev rows ratio ut h eps ↔ ∀ y ∈ gamma ev rows ratio ut h, y ≤ eps := by
+  unfold GammaLe gamma
+  constructor
+  · intro hg y hy
+    obtain ⟨k, hk, rfl⟩ := List.mem_map.mp hy
+    exact hg k hk
+  · intro hy k hk
+    exact hy _ (List.mem_map.mpr ⟨k, hk, rfl⟩)
+
+theorem toRat_hard (p : List Nat) (hp : ∀ x ∈ p, x = 0 ∨ x = 1) : Moments.Hard (toRat p) := by
+  induction p with
+  | nil => intro x hx; simp at hx
+  | cons a p ih =>
+    intro x hx
+    rw [toRat_cons] at hx
+    rcases List.mem_cons.mp hx with rfl | hx'
+    · rcases hp a (by simp) with rfl | rfl <;> simp
+    · exact ih (fun y hy => hp y (by simp [hy])) x hx'
+
+open Moments Cross in
+/-- **GridSearch.fit, end to end (constraint level)**: run the loop of `GridSearch.fit` (`Grid.fitLoop`: any grid, any
+    base learner, any objective with values in [0,1]) with `constraints.gamma` = the gamma of a `UtilityParity` moment
+    `(ev, rows, ratio, ut)`.  If SOME trained predictor satisfies `gamma ≤ eps`, the predictor `predict` delegates to
+    (`out.preds[out.best]`) satisfies `gamma ≤ eps + (1 − cw)/cw`; with `constraint_weight = 1`: `gamma ≤ eps` -/
+theorem fit_selected_gammaLe (ev : Ev) (rows : List Row) (ratio : Rat) (ut : Util)
+    (span : Bool) (cwOf : List Rat → List Rat) (ow : List Rat) (learner : List (Nat × Rat) → List Nat)
+    (objOf : List Nat → Rat) (cw : Rat) (grid : List (List Rat)) (out : FitOut) (eps : Rat)
+    (hcw : 0 < cw) (hcw1 : cw ≤ 1)
+    (hfit : fitLoop span cwOf ow learner objOf (fun p => gamma ev rows ratio ut (toRat p)) cw grid = some out)
+    (hobj : ∀ p ∈ out.preds, 0 ≤ objOf p ∧ objOf p ≤ 1)
+    (hsome : ∃ p ∈ out.preds, GammaLe ev rows ratio ut (toRat p) eps) :
+    ∃ hb : out.best < out.preds.length,
+      GammaLe ev rows ratio ut (toRat out.preds[out.best]) (eps + (1 - cw) / cw) := by
+  simp only [fitLoop, Option.map_eq_some_iff] at hfit
+  obtain ⟨b, hsel, rfl⟩ := hfit
+  simp only at hobj hsome ⊢
+  set preds := grid.map (fun lam => trainAt learner (relabel (combineWeights span (cwOf lam) ow))) with hpreds
+  obtain ⟨p, hp, hpe⟩ := hsome
+  obtain ⟨hi, hle⟩ := select_gamma_le cw hcw hcw1 _ b hsel
+    (by
+      intro r hr
+      obtain ⟨q, hq, rfl⟩ := List.mem_map.mp hr
+      exact hobj q hq)
+    eps ⟨_, List.mem_map.mpr ⟨p, hp, rfl⟩, (gammaLe_iff_mem ev rows ratio ut _ eps).mp hpe⟩
+  have hb : b < preds.length := by simpa using hi
+  refine ⟨hb, (gammaLe_iff_mem ev rows ratio ut _ _).mpr ?_⟩
+  simpa using hle
+
+open Moments Cross Fairness in
+/-- **GridSearch(DemographicParity) end to end**: the demographic-parity difference (as `fairlearn.metrics` reports
+    it, on the rows of event `e`: all rows / one control stratum) of the predictor GridSearch RETURNS is at most
+    `eps + (1 − cw)/cw` to the overall rate and twice that between groups, as soon as some grid point yields a
+    predictor satisfying the constraint with slack `eps` -/
+theorem gridsearch_dp_end_to_end (ev : Ev) (rows : List Row) (e : String)
+    (span : Bool) (cwOf : List Rat → List Rat) (ow : List Rat) (learner : List (Nat × Rat) → List Nat)
+    (objOf : List Nat → Rat) (cw : Rat) (grid : List (List Rat)) (out : FitOut) (eps : Rat)
+    (hcw : 0 < cw) (hcw1 : cw ≤ 1)
+    (hfit : fitLoop span cwOf ow learner objOf (fun p => gamma ev rows 1 defaultUtil (toRat p)) cw grid = some out)
+    (hobj : ∀ p ∈ out.preds, 0 ≤ objOf p ∧ objOf p ≤ 1)
+    (hshape : ∀ p ∈ out.preds, p.length = rows.length ∧ ∀ x ∈ p, x = 0 ∨ x = 1)
+    (hsome : ∃ p ∈ out.preds, GammaLe ev rows 1 defaultUtil (toRat p) eps)
+    (hne : ∃ g, Observed ev rows e g) :
+    ∃ hb : out.best < out.preds.length,
+      (∃ D, named "demographic_parity_difference" .toOverall 1 (toFrame (inE ev e) rows (toRat out.preds[out.best]))
+          = some (.value (XR.fin D)) ∧ 0 ≤ D ∧ D ≤ eps + (1 - cw) / cw) ∧
+      (∃ D, named "demographic_parity_difference" .between 1 (toFrame (inE ev e) rows (toRat out.preds[out.best]))
+          = some (.value (XR.fin D)) ∧ 0 ≤ D ∧ D ≤ 2 * (eps + (1 - cw) / cw)) := by
+  obtain ⟨hb, hg⟩ := fit_selected_gammaLe ev rows 1 defaultUtil span cwOf ow learner objOf cw grid out eps hcw hcw1
+    hfit hobj hsome
+  obtain ⟨hl, h01⟩ := hshape _ (List.getElem_mem hb)
+  exact ⟨hb, C06.dp_difference_le_of_constraint ev rows _ _ e (by simpa [toRat] using hl) (toRat_hard _ h01) hne hg⟩
+
+open Moments Cross Fairness in
+/-- **GridSearch(EqualizedOdds) end to end**, real event rule, without (`c0 = none`) or within a control stratum:
+    equalized_odds_difference (worst case) of the RETURNED predictor -/
+theorem gridsearch_eo_end_to_end (rows : List Row) (c0 : Option String)
+    (span : Bool) (cwOf : List Rat → List Rat) (ow : List Rat) (learner : List (Nat × Rat) → List Nat)
+    (objOf : List Nat → Rat) (cw : Rat) (grid : List (List Rat)) (out : FitOut) (eps : Rat)
+    (hcw : 0 < cw) (hcw1 : cw ≤ 1)
+    (hfit : fitLoop span cwOf ow learner objOf (fun p => gamma (eventOf .eo) rows 1 defaultUtil (toRat p)) cw grid = some out)
+    (hobj : ∀ p ∈ out.preds, 0 ≤ objOf p ∧ objOf p ≤ 1)
+    (hshape : ∀ p ∈ out.preds, p.length = rows.length ∧ ∀ x ∈ p, x = 0 ∨ x = 1)
+    (hsome : ∃ p ∈ out.preds, GammaLe (eventOf .eo) rows 1 defaultUtil (toRat p) eps)
+    (hy : ∀ r ∈ rows, r.y = 0 ∨ r.y = 1) (hne : rows.filter (fun r => r.c == c0) ≠ [])
+    (hcov1 : ∀ r ∈ rows, (r.c == c0) = true → ∃ r2 ∈ rows, (r2.c == c0) = true ∧ r2.g = r.g ∧ r2.y = 1)
+    (hcov0 : ∀ r ∈ rows, (r.c == c0) = true → ∃ r2 ∈ rows, (r2.c == c0) = true ∧ r2.g = r.g ∧ r2.y = 0) :
+    ∃ hb : out.best < out.preds.length,
+      (∃ D, eodds "equalized_odds_difference" .toOverall .worstCase 1 (toFrame (fun r => r.c == c0) rows (toRat out.preds[out.best]))
+          = some (.value (XR.fin D)) ∧ 0 ≤ D ∧ D ≤ eps + (1 - cw) / cw) ∧
+      (∃ D, eodds "equalized_odds_difference" .between .worstCase 1 (toFrame (fun r => r.c == c0) rows (toRat out.preds[out.best]))
+          = some (.value (XR.fin D)) ∧ 0 ≤ D ∧ D ≤ 2 * (eps + (1 - cw) / cw)) := by
+  obtain ⟨hb, hg⟩ := fit_selected_gammaLe (eventOf .eo) rows 1 defaultUtil span cwOf ow learner objOf cw grid out eps
+    hcw hcw1 hfit hobj hsome
+  obtain ⟨hl, h01⟩ := hshape _ (List.getElem_mem hb)
+  refine ⟨hb, ?_⟩
+  exact C06.eodds_difference_le_of_constraint (eventOf .eo) rows _ _
+    (C06.stratumEvent c0 (MomentsSrc.labelEvent 1)) (C06.stratumEvent c0 (MomentsSrc.labelEvent 0))
+    (fun r => r.c == c0) (by simpa [toRat] using hl) (toRat_hard _ h01) hy hne
+    (C06.eo_selects c0 1 (Or.inr rfl)) (C06.eo_selects c0 0 (Or.inl rfl)) hcov1 hcov0 hg
+
+/-- `constraint_weight = 1`: the bound is `eps` itself -/
+theorem slack_cw_one (eps : Rat) : eps + (1 - 1) / 1 = eps := by norm_num
+
+/-! non-vacuity: a real `fitLoop` run (two grid points, learner = "predict the relabelled target") on 4 rows,
+    DemographicParity; the second predictor is the constant 0 (gamma = 0), selected for `cw = 1` -/
+def xFitRows : List Moments.Row := [⟨1, "a", none⟩, ⟨0, "a", none⟩, ⟨1, "b", none⟩, ⟨0, "b", none⟩]
+def xFit : Option FitOut :=
+  fitLoop false (fun lam => lam) [0, 0, 0, 0] (fun d => d.map (·.1)) (fun p => (p.map (fun x => if x = 1 then (1 : Rat) / 4 else 0)).sum)
+    (fun p => Moments.gamma (Moments.eventOf .dp) xFitRows 1 Moments.defaultUtil (toRat p)) 1
+    [[1, 1, -1, -1], [-1, -1, -1, 1/2]]
+
+example : xFit.map (fun o => (o.preds, o.best)) = some ([[1, 1, 0, 0], [0, 0, 0, 1]], 1) := by decide +kernel
+example : xFit.map (fun o => o.gammas) = some [[1/2, -1/2, -1/2, 1/2], [-1/4, 1/4, 1/4, -1/4]] := by decide +kernel
+
+open Moments Cross Fairness in
+/-- every hypothesis of `gridsearch_dp_end_to_end` is met by that run (`cw = 1`, `eps = 1/4`), and the bound is attained:
+    the returned predictor `[0,0,0,1]` has demographic-parity difference exactly 1/4 to the overall rate -/
+example (out : FitOut) (h : xFit = some out) :
+    ∃ _ : out.best < out.preds.length,
+      (∃ D, named "demographic_parity_difference" .toOverall 1
+          (toFrame (inE (eventOf .dp) "all") xFitRows (toRat out.preds[out.best])) = some (.value (XR.fin D)) ∧
+        0 ≤ D ∧ D ≤ 1/4 + (1 - 1) / 1) ∧
+      (∃ D, named "demographic_parity_difference" .between 1
+          (toFrame (inE (eventOf .dp) "all") xFitRows (toRat out.preds[out.best])) = some (.value (XR.fin D)) ∧
+        0 ≤ D ∧ D ≤ 2 * (1/4 + (1 - 1) / 1)) := by
+  have hp : out.preds = [[1, 1, 0, 0], [0, 0, 0, 1]] := by
+    have : xFit.map (·.preds) = some [[1, 1, 0, 0], [0, 0, 0, 1]] := by decide +kernel
+    rw [h] at this; simpa using this
+  apply gridsearch_dp_end_to_end (eventOf .dp) xFitRows "all" false (fun lam => lam) [0, 0, 0, 0] (fun d => d.map (·.1))
+    (fun p => (p.map (fun x => if x = 1 then (1 : Rat) / 4 else 0)).sum) 1 [[1, 1, -1, -1], [-1, -1, -1, 1/2]] out (1/4)
+    (by norm_num) (le_refl _) h
+  · rw [hp]; decide +kernel
+  · rw [hp]; decide +kernel
+  · rw [hp]; exact ⟨[0, 0, 0, 1], by simp, by decide +kernel⟩
+  · exact ⟨"a", ⟨1, "a", none⟩, by decide +kernel, by decide +kernel, rfl⟩
+open Moments Cross Fairness in
+example : named "demographic_parity_difference" .toOverall 1
+    (toFrame (inE (eventOf .dp) "all") xFitRows (toRat [0, 0, 0, 1])) = some (.value (XR.fin (1/4))) := by decide +kernel
+
+open Moments Cross Fairness in
+/-- **GridSearch(TruePositiveRateParity) end to end**, real event rule, with or without control features:
+    equal_opportunity_difference of the RETURNED predictor -/
+theorem gridsearch_tpr_end_to_end (rows : List Row) (c0 : Option String)
+    (span : Bool) (cwOf : List Rat → List Rat) (ow : List Rat) (learner : List (Nat × Rat) → List Nat)
+    (objOf : List Nat → Rat) (cw : Rat) (grid : List (List Rat)) (out : FitOut) (eps : Rat)
+    (hcw : 0 < cw) (hcw1 : cw ≤ 1)
+    (hfit : fitLoop span cwOf ow learner objOf (fun p => gamma (eventOf .tpr) rows 1 defaultUtil (toRat p)) cw grid = some out)
+    (hobj : ∀ p ∈ out.preds, 0 ≤ objOf p ∧ objOf p ≤ 1)
+    (hshape : ∀ p ∈ out.preds, p.length = rows.length ∧ ∀ x ∈ p, x = 0 ∨ x = 1)
+    (hsome : ∃ p ∈ out.preds, GammaLe (eventOf .tpr) rows 1 defaultUtil (toRat p) eps)
+    (hy : ∀ r ∈ rows, r.y = 0 ∨ r.y = 1) (hne : rows.filter (fun r => r.c == c0) ≠ [])
+    (hcov : ∀ r ∈ rows, (r.c == c0) = true → ∃ r2 ∈ rows, (r2.c == c0) = true ∧ r2.g = r.g ∧ r2.y = 1) :
+    ∃ hb : out.best < out.preds.length,
+      (∃ D, named "equal_opportunity_difference" .toOverall 1 (toFrame (fun r => r.c == c0) rows (toRat out.preds[out.best]))
+          = some (.value (XR.fin D)) ∧ 0 ≤ D ∧ D ≤ eps + (1 - cw) / cw) ∧
+      (∃ D, named "equal_opportunity_difference" .between 1 (toFrame (fun r => r.c == c0) rows (toRat out.preds[out.best]))
+          = some (.value (XR.fin D)) ∧ 0 ≤ D ∧ D ≤ 2 * (eps + (1 - cw) / cw)) := by
+  obtain ⟨hb, hg⟩ := fit_selected_gammaLe (eventOf .tpr) rows 1 defaultUtil span cwOf ow learner objOf cw grid out eps
+    hcw hcw1 hfit hobj hsome
+  obtain ⟨hl, h01⟩ := hshape _ (List.getElem_mem hb)
+  exact ⟨hb, C06.eopp_difference_le_of_constraint (eventOf .tpr) rows _ _
+    (C06.stratumEvent c0 (MomentsSrc.labelEvent 1)) (fun r => r.c == c0) (by simpa [toRat] using hl) (toRat_hard _ h01)
+    hy hne (C06.tpr_selects c0) hcov hg⟩
+
+open Moments Cross Fairness in
+/-- **GridSearch(ErrorRateParity) end to end**: `accuracy_score_difference` (and, by
+    `C03.accuracy_difference_eq_zero_one_difference`, `zero_one_loss_difference`) of the RETURNED predictor -/
+theorem gridsearch_erp_end_to_end (rows : List Row) (c0 : Option String)
+    (span : Bool) (cwOf : List Rat → List Rat) (ow : List Rat) (learner : List (Nat × Rat) → List Nat)
+    (objOf : List Nat → Rat) (cw : Rat) (grid : List (List Rat)) (out : FitOut) (eps : Rat)
+    (hcw : 0 < cw) (hcw1 : cw ≤ 1)
+    (hfit : fitLoop span cwOf ow learner objOf (fun p => gamma (eventOf .erp) rows 1 erpUtil (toRat p)) cw grid = some out)
+    (hobj : ∀ p ∈ out.preds, 0 ≤ objOf p ∧ objOf p ≤ 1)
+    (hshape : ∀ p ∈ out.preds, p.length = rows.length ∧ ∀ x ∈ p, x = 0 ∨ x = 1)
+    (hsome : ∃ p ∈ out.preds, GammaLe (eventOf .erp) rows 1 erpUtil (toRat p) eps)
+    (hy : ∀ r ∈ rows, r.y = 0 ∨ r.y = 1) (hne : rows.filter (fun r => r.c == c0) ≠ []) :
+    ∃ hb : out.best < out.preds.length,
+      (∃ D, generated "accuracy_score_difference" .toOverall 1 (toFrame (fun r => r.c == c0) rows (toRat out.preds[out.best]))
+          = some (some (.value (XR.fin D))) ∧ 0 ≤ D ∧ D ≤ eps + (1 - cw) / cw) ∧
+      (∃ D, generated "accuracy_score_difference" .between 1 (toFrame (fun r => r.c == c0) rows (toRat out.preds[out.best]))
+          = some (some (.value (XR.fin D))) ∧ 0 ≤ D ∧ D ≤ 2 * (eps + (1 - cw) / cw)) := by
+  obtain ⟨hb, hg⟩ := fit_selected_gammaLe (eventOf .erp) rows 1 erpUtil span cwOf ow learner objOf cw grid out eps
+    hcw hcw1 hfit hobj hsome
+  obtain ⟨hl, h01⟩ := hshape _ (List.getElem_mem hb)
+  exact ⟨hb, (C06.erp_constraint_bounds rows _ _ c0 (by simpa [toRat] using hl) (toRat_hard _ h01) hy hne hg).1⟩
+
+open Moments Cross Fairness in
+/-- **GridSearch(DemographicParity(ratio_bound = r, ratio_bound_slack = eps)) end to end**: lower bounds on
+    `demographic_parity_ratio` of the RETURNED predictor, with `eps' = eps + (1 − cw)/cw` and `μ` its overall selection
+    rate on the event's rows -/
+theorem gridsearch_dp_ratio_end_to_end (ev : Ev) (rows : List Row) (e : String) (ratio : Rat)
+    (span : Bool) (cwOf : List Rat → List Rat) (ow : List Rat) (learner : List (Nat × Rat) → List Nat)
+    (objOf : List Nat → Rat) (cw : Rat) (grid : List (List Rat)) (out : FitOut) (eps : Rat)
+    (hcw : 0 < cw) (hcw1 : cw ≤ 1) (hr : 0 < ratio) (hr1 : ratio ≤ 1) (he : 0 ≤ eps)
+    (hfit : fitLoop span cwOf ow learner objOf (fun p => gamma ev rows ratio defaultUtil (toRat p)) cw grid = some out)
+    (hobj : ∀ p ∈ out.preds, 0 ≤ objOf p ∧ objOf p ≤ 1)
+    (hshape : ∀ p ∈ out.preds, p.length = rows.length ∧ ∀ x ∈ p, x = 0 ∨ x = 1)
+    (hsome : ∃ p ∈ out.preds, GammaLe ev rows ratio defaultUtil (toRat p) eps)
+    (hne : ∃ g, Observed ev rows e g)
+    (hm : ∀ p ∈ out.preds, 0 < mE ev rows defaultUtil (toRat p) e) :
+    ∃ hb : out.best < out.preds.length,
+      (∃ ρ, named "demographic_parity_ratio" .between 1 (toFrame (inE ev e) rows (toRat out.preds[out.best])) = some (.value (XR.fin ρ)) ∧
+        ratio * (ratio * mE ev rows defaultUtil (toRat out.preds[out.best]) e - (eps + (1 - cw) / cw))
+          / (mE ev rows defaultUtil (toRat out.preds[out.best]) e + (eps + (1 - cw) / cw)) ≤ ρ) ∧
+      (∃ ρ, named "demographic_parity_ratio" .toOverall 1 (toFrame (inE ev e) rows (toRat out.preds[out.best])) = some (.value (XR.fin ρ)) ∧
+        (ratio * mE ev rows defaultUtil (toRat out.preds[out.best]) e - (eps + (1 - cw) / cw))
+          / mE ev rows defaultUtil (toRat out.preds[out.best]) e ≤ ρ) := by
+  obtain ⟨hb, hg⟩ := fit_selected_gammaLe ev rows ratio defaultUtil span cwOf ow learner objOf cw grid out eps
+    hcw hcw1 hfit hobj hsome
+  obtain ⟨hl, h01⟩ := hshape _ (List.getElem_mem hb)
+  have he' : 0 ≤ eps + (1 - cw) / cw := add_nonneg he (div_nonneg (by linarith) (le_of_lt hcw))
+  exact ⟨hb, C06.dp_ratio_ge_of_constraint ev rows _ ratio _ e (by simpa [toRat] using hl) (toRat_hard _ h01) hne hr hr1 he'
+    (hm _ (List.getElem_mem hb)) hg⟩
+
+/-! all-hypotheses examples for the three corollaries: the run `xFit` with the gamma of the respective moment -/
+def xFitWith (gam : List Nat → List Rat) : Option FitOut :=
+  fitLoop false (fun lam => lam) [0, 0, 0, 0] (fun d => d.map (·.1)) (fun p => (p.map (fun x => if x = 1 then (1 : Rat) / 4 else 0)).sum)
+    gam 1 [[1, 1, -1, -1], [-1, -1, -1, 1/2]]
+
+theorem xFitWith_preds (gam : List Nat → List Rat) (out : FitOut) (h : xFitWith gam = some out) :
+    out.preds = [[1, 1, 0, 0], [0, 0, 0, 1]] := by
+  simp only [xFitWith, fitLoop, Option.map_eq_some_iff] at h
+  obtain ⟨b, _, rfl⟩ := h
+  show List.map (fun lam => trainAt (fun d => List.map (fun x => x.1) d) (relabel (combineWeights false lam [0, 0, 0, 0])))
+      [[1, 1, -1, -1], [-1, -1, -1, 1 / 2]] = [[1, 1, 0, 0], [0, 0, 0, 1]]
+  decide +kernel
+
+open Moments Cross Fairness in
+example (out : FitOut)
+    (h : xFitWith (fun p => gamma (eventOf .tpr) xFitRows 1 defaultUtil (toRat p)) = some out) :
+    ∃ _ : out.best < out.preds.length,
+      (∃ D, named "equal_opportunity_difference" .toOverall 1 (toFrame (fun r => r.c == none) xFitRows (toRat out.preds[out.best]))
+          = some (.value (XR.fin D)) ∧ 0 ≤ D ∧ D ≤ 0 + (1 - 1) / 1) ∧
+      (∃ D, named "equal_opportunity_difference" .between 1 (toFrame (fun r => r.c == none) xFitRows (toRat out.preds[out.best]))
+          = some (.value (XR.fin D)) ∧ 0 ≤ D ∧ D ≤ 2 * (0 + (1 - 1) / 1)) := by
+  have hp := xFitWith_preds _ out h
+  apply gridsearch_tpr_end_to_end xFitRows none false (fun lam => lam) [0, 0, 0, 0] (fun d => d.map (·.1))
+    (fun p => (p.map (fun x => if x = 1 then (1 : Rat) / 4 else 0)).sum) 1 [[1, 1, -1, -1], [-1, -1, -1, 1/2]] out 0
+    (by norm_num) (le_refl _) h
+  · rw [hp]; decide +kernel
+  · rw [hp]; decide +kernel
+  · rw [hp]; exact ⟨[0, 0, 0, 1], by simp, by decide +kernel⟩
+  · decide +kernel
+  · decide +kernel
+  · decide +kernel
+
+open Moments Cross Fairness in
+example (out : FitOut)
+    (h : xFitWith (fun p => gamma (eventOf .erp) xFitRows 1 erpUtil (toRat p)) = some out) :
+    ∃ _ : out.best < out.preds.length,
+      (∃ D, generated "accuracy_score_difference" .toOverall 1 (toFrame (fun r => r.c == none) xFitRows (toRat out.preds[out.best]))
+          = some (some (.value (XR.fin D))) ∧ 0 ≤ D ∧ D ≤ 0 + (1 - 1) / 1) ∧
+      (∃ D, generated "accuracy_score_difference" .between 1 (toFrame (fun r => r.c == none) xFitRows (toRat out.preds[out.best]))
+          = some (some (.value (XR.fin D))) ∧ 0 ≤ D ∧ D ≤ 2 * (0 + (1 - 1) / 1)) := by
+  have hp := xFitWith_preds _ out h
+  apply gridsearch_erp_end_to_end xFitRows none false (fun lam => lam) [0, 0, 0, 0] (fun d => d.map (·.1))
+    (fun p => (p.map (fun x => if x = 1 then (1 : Rat) / 4 else 0)).sum) 1 [[1, 1, -1, -1], [-1, -1, -1, 1/2]] out 0
+    (by norm_num) (le_refl _) h
+  · rw [hp]; decide +kernel
+  · rw [hp]; decide +kernel
+  · rw [hp]; exact ⟨[1, 1, 0, 0], by simp, by decide +kernel⟩
+  · decide +kernel
+  · decide +kernel
+
+open Moments Cross Fairness in
+example (out : FitOut)
+    (h : xFitWith (fun p => gamma (eventOf .dp) xFitRows (1/2) defaultUtil (toRat p)) = some out) :
+    ∃ _ : out.best < out.preds.length,
+      (∃ ρ, named "demographic_parity_ratio" .between 1 (toFrame (inE (eventOf .dp) "all") xFitRows (toRat out.preds[out.best])) = some (.value (XR.fin ρ)) ∧
+        (1/2) * ((1/2) * mE (eventOf .dp) xFitRows defaultUtil (toRat out.preds[out.best]) "all" - (1/8 + (1 - 1) / 1))
+          / (mE (eventOf .dp) xFitRows defaultUtil (toRat out.preds[out.best]) "all" + (1/8 + (1 - 1) / 1)) ≤ ρ) ∧
+      (∃ ρ, named "demographic_parity_ratio" .toOverall 1 (toFrame (inE (eventOf .dp) "all") xFitRows (toRat out.preds[out.best])) = some (.value (XR.fin ρ)) ∧
+        ((1/2) * mE (eventOf .dp) xFitRows defaultUtil (toRat out.preds[out.best]) "all" - (1/8 + (1 - 1) / 1))
+          / mE (eventOf .dp) xFitRows defaultUtil (toRat out.preds[out.best]) "all" ≤ ρ) := by
+  have hp := xFitWith_preds _ out h
+  apply gridsearch_dp_ratio_end_to_end (eventOf .dp) xFitRows "all" (1/2) false (fun lam => lam) [0, 0, 0, 0] (fun d => d.map (·.1))
+    (fun p => (p.map (fun x => if x = 1 then (1 : Rat) / 4 else 0)).sum) 1 [[1, 1, -1, -1], [-1, -1, -1, 1/2]] out (1/8)
+    (by norm_num) (le_refl _) (by norm_num) (by norm_num) (by norm_num) h
+  · rw [hp]; decide +kernel
+  · rw [hp]; decide +kernel
+  · rw [hp]; exact ⟨[0, 0, 0, 1], by simp, by decide +kernel⟩
+  · exact ⟨"a", ⟨1, "a", none⟩, by decide +kernel, by decide +kernel, rfl⟩
+  · rw [hp]; decide +kernel
+
 end C09
